@@ -124,6 +124,23 @@ def exec_doc(scn):
     return out
 
 
+def pair_scenarios():
+    """documents with two objects, every combination of present / omitted StartTime and EndTime on each"""
+    out = []
+    A = {"tag": "absent", "num": 0}
+    I = lambda n: {"tag": "int", "num": n}
+    sts, ens = [A, I(1000000), I(-500000)], [A, I(1500000), I(0)]
+    k = 0
+    for s1 in sts:
+        for e1 in ens:
+            for s2 in sts:
+                for e2 in ens:
+                    out.append({"id": f"pair{k}", "variant": k, "kind": "qua", "tps": [{"st": A, "bpm": {"tag": "float", "num": 12000}}], "svs": [],
+                                "objs": [{"st": s1, "lane": I(1000), "end": e1, "ks": A}, {"st": s2, "lane": I(2000), "end": e2, "ks": A}]})
+                    k += 1
+    return out
+
+
 def exec_chart(scn):
     """charts that reach the writer through other histories: built, converted from the other games, rate-changed"""
     from harness.charts import new_map
@@ -140,6 +157,12 @@ def exec_chart(scn):
                       "keysounds": []} for i in range(n % 5)]
             bpms = [{"offset": 0.0, "bpm": r.choice([120.0, 90.5, 333.33]), "metronome": 4}]
             svs = [{"offset": r.uniform(0, 9000), "multiplier": r.choice([0.5, 2.0, 1 / 3])} for _ in range(n % 3)]
+            if n % 7 == 3:
+                # a long scroll-velocity list with two entries on one time (the later one is in force) and a tied tempo pair
+                svs = [{"offset": 10.0 * j, "multiplier": 0.5 + (j % 9) * 0.25} for j in range(130)]
+                svs.insert(51, {"offset": 500.0, "multiplier": 3.0})
+                svs.insert(121, {"offset": 1190.0, "multiplier": 0.25})
+                bpms = bpms + [{"offset": 60000.0, "bpm": 200.0, "metronome": 4}, {"offset": 60000.0, "bpm": 100.0, "metronome": 4}]
             m = new_map("qua", {"hits": hits, "holds": holds, "bpms": bpms, "svs": svs})
             m.title, m.artist, m.creator, m.difficulty_name = STRS[n % len(STRS)], "a", STRS[(n + 2) % len(STRS)], "d: x"
             m.tags = ["t1", "t:2"] if n % 2 else []
